@@ -868,10 +868,10 @@ func (w *worldA) doReload(op Op) {
 	}
 	if w.reloadHook != nil && w.reloadHook(op) {
 		if op.B {
-			// a kept-decision capacity smaller than the number of workers: every
-			// worker's share is zero and its Resize fails
+			// a kept-decision capacity for which the workers' Resize returns an error
+			// (zero here; an int overflow does the same)
 			c.Mux.Lock()
-			c.SampleCache.KeptSize = 1
+			c.SampleCache.KeptSize = 0
 			c.Mux.Unlock()
 			w.out.Fault("sent_cache_resize_fails")
 		}
